@@ -25,9 +25,10 @@ theorem takeLine_length (d : Byte) (k : Nat) (r : List Byte) :
     (takeLine d k r).1.length + (takeLine d k r).2.length = r.length := by
   fun_induction takeLine d k r <;> simp_all <;> omega
 
-/-- `getline` either leaves the stream not good, or has consumed at least the delimiter -/
+/-- `getline` either leaves the stream not good, or has consumed at least the delimiter; what it stored is part of what
+it consumed -/
 theorem getline_meas (n : Nat) (d : Byte) (s : IS) (hg : s.good = true) :
-    (getline n d s).1.meas + 1 ≤ s.meas := by
+    (getline n d s).1.meas + (getline n d s).2.length + 1 ≤ s.meas := by
   obtain ⟨pre, rest, eof, fail, sk⟩ := s
   simp [IS.good] at hg
   obtain ⟨rfl, rfl⟩ := hg
@@ -38,16 +39,18 @@ theorem getline_meas (n : Nat) (d : Byte) (s : IS) (hg : s.good = true) :
   obtain ⟨t, r⟩ := tl
   simp at hl ⊢
   cases r with
-  | nil => simp [IS.meas, IS.good]
+  | nil => simp [IS.meas, IS.good]; simp at hl; omega
   | cons c r' =>
     by_cases hc : c = d
     · simp [hc, IS.meas, IS.good]
       simp at hl; omega
     · simp [hc, IS.meas, IS.good]
+      simp at hl; omega
 
-/-- with the give-up test `!in.good()` the header search needs at most `meas + 1` iterations -/
+/-- with the give-up test `!in.good()` the header search needs at most `meas + 1` iterations; its step count
+(iterations + bytes stored by `getline`) is at most twice the remaining input -/
 theorem headerLoop_terminates (n : Nat) : ∀ (fuel : Nat) (s : IS) (buf : List Byte) (steps : Nat),
-    s.meas + 1 ≤ fuel → ∃ r, headerLoop n .notGood fuel s buf steps = .ok r ∧ r.steps ≤ steps + s.meas := by
+    s.meas + 1 ≤ fuel → ∃ r, headerLoop n .notGood fuel s buf steps = .ok r ∧ r.steps ≤ steps + 2 * s.meas := by
   intro fuel
   induction fuel with
   | zero => intro s buf steps h; omega
@@ -63,7 +66,7 @@ theorem headerLoop_terminates (n : Nat) : ∀ (fuel : Nat) (s : IS) (buf : List 
         generalize hgl : getline n chSemi s = gl at hm
         obtain ⟨s1, buf1⟩ := gl
         simp at hm ⊢
-        obtain ⟨r, hr, hs⟩ := ih s1 buf1 (steps + 1) (by omega)
+        obtain ⟨r, hr, hs⟩ := ih s1 buf1 (steps + 1 + buf1.length) (by omega)
         exact ⟨r, hr, by omega⟩
       · simp at hg
         simp [hg]
